@@ -219,9 +219,20 @@ def ring(ctx, P):
         # within-group comparisons run inside the loops over a group; comparisons between group representatives are outside any loop.
         # (`self` makes every operand also derive from the explicit keys, so a comparison is identified by its non-explicit groups:
         #  {pkesk, skesk}, {pkesk} = pkesk vs explicit, {skesk} = skesk vs explicit.)
+        # a comparison may go through a helper `fn(&PlainSessionKey, &PlainSessionKey) -> bool` (the same key can come in two forms:
+        # v3 PKESK / v5 SKESK of one GnuPG AEAD container): it counts if every way through it passes an equality of session keys
+        def is_key_comparator(q):
+            r_ = ctx.f.bodies.get(q)
+            if r_ is None or r_['nargs'] != 2 or r_['locals'][0]['ty'] != 'bool' or not all('PlainSessionKey' in (r_['locals'][k]['ty'] or '') for k in (1, 2)):
+                return False
+            hb = ctx.wrap(r_)
+            eqs = [j for j, tt in hb.calls(r'PartialEq::(eq|ne)$') if re.search(r'PlainSessionKey|RawSessionKey', tt['f'].get('selfty') or '')]
+            return bool(eqs) and must_pass(hb, hb.returns(), eqs)[0]
         pairs = set()
-        for i, t in b.calls(r'PartialEq::(eq|ne)$'):
-            if 'PlainSessionKey' not in (t['f'].get('selfty') or '') or len(t['args']) < 2 or i in inloop:
+        cmp_calls = [(i, t) for i, t in b.calls(r'PartialEq::(eq|ne)$') if 'PlainSessionKey' in (t['f'].get('selfty') or '')]
+        helper_cmp = [(i, t) for i, t in b.calls() if (t['f'].get('res') or t['f'].get('fn')) in ctx.f.bodies and is_key_comparator(t['f'].get('res') or t['f'].get('fn'))]
+        for i, t in cmp_calls + helper_cmp:
+            if len(t['args']) < 2 or i in inloop:
                 continue
             g = set()
             for a_ in t['args'][:2]:
@@ -256,9 +267,28 @@ def ring(ctx, P):
                   site=site(b, dropping[0]) if dropping else None,
                   missing=('an element-dropping iterator adaptor is applied to collected session keys' if dropping else 'groups with a complete comparison: %s' % sorted(within)))
         gs2 = [g for g, _ in guard_switches(b, late_oks, [r'callty:.*PartialEq::(ne|eq)@.*PlainSessionKey'])]
+        for i, t in helper_cmp:
+            gs2 += [g for g, _ in guard_switches(b, late_oks, [r'cs:.*#%d$' % i])]
         ctx.check(P + ':ring:cross-group-consistency', 'R-dom', 'session keys obtained from PKESKs, from SKESKs and given explicitly are compared across the three groups (rejecting) before one is returned',
                   want <= pairs and bool(gs2), function=b.path, table=sorted(sorted(x) for x in pairs),
                   missing=None if want <= pairs else 'groups are only checked internally: pairs compared %s; a correct password plus a wrong explicit session key is silently resolved' % sorted(sorted(x) for x in pairs))
+        # the same session key comes in two FORMS in front of a GnuPG AEAD container (v3 PKESK: V3_4{sym_alg, key}; v5 SKESK: V5{key};
+        # both admitted by the container table that C15 decides): the derived equality of PlainSessionKey tells the forms apart, so a
+        # comparison ACROSS mechanisms by `==` reports a conflict when a recipient key and the password of the same message are
+        # presented together.  Cross-group comparisons go through a comparator that looks inside both forms.
+        direct_cross = []
+        for i, t in cmp_calls:
+            if len(t['args']) < 2 or i in inloop:
+                continue
+            g = set()
+            for a_ in t['args'][:2]:
+                g |= set(k for k, rx in SRC.items() if has_origin(b.operand_origins(a_), rx))
+            ne = g - {'explicit'}
+            if ne == {'pkesk', 'skesk'} or (len(ne) == 1 and 'explicit' in g):
+                direct_cross.append(i)
+        ctx.check(P + ':ring:cross-group-compares-key-octets', 'R-table', 'session keys from different mechanisms are compared by a comparator that relates the two forms of one key (V3_4 / V5), not by the derived equality of the enum',
+                  not direct_cross and bool(helper_cmp), function=b.path, site=site(b, direct_cross[0]) if direct_cross else None,
+                  missing=None if (not direct_cross and helper_cmp) else 'the comparison at %s uses PlainSessionKey == PlainSessionKey: V3_4{..} never equals V5{..}, so a GnuPG AEAD message encrypted to a key and a password cannot be decrypted when both are presented' % (site(b, direct_cross[0]) if direct_cross else '?'))
     b = ctx.body("composed::message::types::Message::<'a>::decrypt_the_ring")
     if b is not None:
         sinks = call_blocks(b, r'Edata.*::decrypt_with_options$')
